@@ -1,0 +1,21 @@
+//go:build verif
+
+// Contracts for package utils, checked by /verif/govc (see /verif/DESIGN.md).
+// This file contains only comments; it is compiled only with -tags verif and
+// has no effect on the package.
+
+package utils
+
+//@ func GetBitsAsUint64
+//@ mode bv
+//@ requires len <= 64
+//@ requires[C07] len == 0 || pos+len <= 8*size(buff)
+//@ exports result == bits(buff, pos, len)
+//@ exports 0 <= result && result < pow2(len)
+
+//@ func GetBitsAsInt64
+//@ mode bv
+//@ requires 2 <= len && len <= 64
+//@ requires[C07] pos+len <= 8*size(buff)
+//@ exports result == sbits(buff, pos, len)
+//@ exports 0-pow2(len-1) <= result && result < pow2(len-1)
